@@ -171,6 +171,34 @@ def run(facts, rep, tier):
                 if not wild or wild[1] != "None":
                     good = False
                 ok5b = good and "as_f64()" in src(m["scrut"]["es"][0])
+                # the bounds compared with the default are the final ones: no assignment to them after the test
+                from lib import scope_binding, top_stmts
+                anc_of = {id(x): a for x, a in walk(h["body"])}
+                tops = top_stmts(h)
+                def top_index(x):
+                    for i, t in enumerate(tops):
+                        if t is x or contains_node(t, x):
+                            return i
+                    return -1
+                bl = []
+                for e in m["scrut"]["es"][1:]:
+                    e = strip_refs(e)
+                    if e.get("k") == "path" and e.get("res") == "local":
+                        b = scope_binding(h, anc_of[id(e)], e["path"], e)
+                        if b and b[0] == "let":
+                            bl.append(b[1] if b[2] is None else (b[1], b[2]))
+                late = []
+                for x, xa in walk(h["body"]):
+                    if x.get("k") in ("assign", "assignop"):
+                        l = strip_refs(x["l"])
+                        if l.get("k") == "path" and l.get("res") == "local":
+                            b = scope_binding(h, xa, l["path"], x)
+                            if b and b[0] == "let" and any((t is b[1]) if not isinstance(t, tuple) else (t[0] is b[1] and t[1] == b[2]) for t in bl):
+                                if top_index(x) >= top_index(m):
+                                    late.append(x)
+                rep.ob("C10.D5", "default-tested-against-final-bounds", len(bl) == 2 and not late,
+                       "every assignment to the two bounds precedes the default-range test" if len(bl) == 2 and not late else
+                       "the bounds are still assigned (`%s`) after the default was compared with them: a default outside the range implied by the format is not reported" % (src(late[0]) if late else "bounds not found"), (late[0] if late else m).get("sp"))
                 rep.ob("C10.D5", "default-range-table", ok5b, "match (default.as_f64(), min, max) accepts only min <= value <= max, else InvalidValue" if ok5b else "default range table differs: %s" % table5, m.get("sp"))
     rep.floor("C10.D5", "general default range check", 1 if ok5b or any(o["key"].endswith("default-range-table") for o in rep.obligations) else 0, 1)
 
